@@ -174,7 +174,7 @@ class MappedScope(Scope):
                         if variable in volatile_expr_dep:
                             subs_vals[variable] = inner_volatile[variable]
                         else:
-                            subs_vals[variable] = self[variable]
+                            subs_vals[variable] = self._scope[variable]
                     volatile[mapped_parameter] = expression.evaluate_symbolic(subs_vals)
                 else:
                     volatile.pop(mapped_parameter, None)
